@@ -79,8 +79,8 @@ type pathVisitor struct {
 	OnExit func(ret *ssa.Return, ps *pathState)
 	// OnBackEdge is called when the path would re-enter a block already on it (a loop back-edge); the path is cut.
 	OnBackEdge func(from, to *ssa.BasicBlock, ps *pathState)
-	// EdgeOK filters CFG edges (nil = all). Used to walk only the feasible outcome of a recognised condition.
-	EdgeOK func(from *ssa.BasicBlock, succIdx int, ps *pathState) bool
+	// OnEdge is called with the (already cloned) state of the successor path; returning false prunes that edge.
+	OnEdge func(from *ssa.BasicBlock, succIdx int, next *pathState) bool
 	Limit  int
 	n      int
 	Overflow bool
@@ -132,9 +132,6 @@ func (pv *pathVisitor) walk(b *ssa.BasicBlock, idx int, ps *pathState) {
 		return
 	}
 	for k, s := range b.Succs {
-		if pv.EdgeOK != nil && !pv.EdgeOK(b, k, ps) {
-			continue
-		}
 		onPath := false
 		for _, pb := range ps.Path {
 			if pb == s {
@@ -148,11 +145,9 @@ func (pv *pathVisitor) walk(b *ssa.BasicBlock, idx int, ps *pathState) {
 			}
 			continue
 		}
-		var next *pathState
-		if k == len(b.Succs)-1 {
-			next = ps
-		} else {
-			next = ps.clone()
+		next := ps.clone()
+		if pv.OnEdge != nil && !pv.OnEdge(b, k, next) {
+			continue
 		}
 		pv.walk(s, 0, next)
 	}
